@@ -26,7 +26,7 @@ TEMPLATES = {
     "pow_vol": ["pow", "L", 3],
     "inv_area": ["div", ["num", 1.0], ["mul", "L", "L"]],
 }
-QUICK = ["len", "time", "area", "vel", "freq", "area_cats", "len_mix", "mom", "pow_area"]
+QUICK = ["len", "time", "area", "vel", "freq", "area_cats", "len_mix", "mom", "pow_area", "vol"]
 THOROUGH = list(TEMPLATES)
 
 
